@@ -2923,8 +2923,9 @@ class Cast(Pointwise):
     def _simplified(self):
         if iszero(self.arg):
             return zeros_like(self)
-        for axis, parts in self.arg._inflations:
-            return util.sum(_inflate(self._newargs(func), dofmap, self.shape[axis], axis) for dofmap, func in parts.items())
+        if self.arg.dtype != bool: # scattering booleans is a logical or, not a sum: overlapping entries must not be counted
+            for axis, parts in self.arg._inflations:
+                return util.sum(_inflate(self._newargs(func), dofmap, self.shape[axis], axis) for dofmap, func in parts.items())
         return super()._simplified()
 
     def _intbounds_impl(self):
